@@ -412,6 +412,7 @@ Section Proofs.
     split; [|exact Hd]. intros [He|He]; [subst; contradiction|contradiction].
   Qed.
 
+  Section Exec.
   Variable D : fdict E.
 
   Definition set_var (m : model) (v : list (name * valia)) : model :=
@@ -463,4 +464,320 @@ Section Proofs.
           rewrite <- !app_assoc. reflexivity.
         * constructor; [split; [reflexivity|split; [exact HR|reflexivity]]|exact Hrel].
   Qed.
+  Lemma exec_pars ks : forall l sl,
+    sym_values E fname translate l = Some sl ->
+    (forall s, In s (val_slots nstr fname ks l) -> ROK D s) ->
+    forall ids m0, fresh (keys l) ids ->
+    exists vs', exec_ops E D (par_ops ks sl) (ids, m0) = Built (rev (keys l) ++ ids, set_par m0 (m_par m0 ++ vs'))
+                /\ Forall2 (val_rel (frel D)) l vs'.
+  Proof.
+    induction l as [|[k v] r IH]; intros sl Hs Hrok ids m0 Hf; simpl in Hs.
+    - inversion Hs; subst. exists []. split; [|constructor].
+      cbn. unfold set_par. rewrite app_nil_r. destruct m0; reflexivity.
+    - destruct (sym_value E fname translate v) as [s|] eqn:Hv; [|discriminate].
+      destruct (sym_values E fname translate r) as [sr|] eqn:Hr; [|discriminate].
+      inversion Hs; subst sl; clear Hs.
+      cbn [keys map fst] in Hf. apply fresh_tail in Hf. destruct Hf as [Hk1 [Hk2 Hf]].
+      destruct v as [z|f a]; simpl in Hv.
+      + inversion Hv; subst s; clear Hv.
+        destruct (IH _ eq_refl (fun s Hs => Hrok s Hs) (k :: ids) (set_par m0 (m_par m0 ++ [(k, Plain z)])) Hf)
+          as [vs' [Hex Hrel]].
+        exists ((k, Plain z) :: vs'). split.
+        * cbn [par_ops map fst snd valref_of exec_ops exec_op resolve_val obind].
+          rewrite (insert_id_ok _ _ Hk1 Hk2). cbn [obind].
+          fold (set_par m0 (m_par m0 ++ [(k, Plain z)])). fold (par_ops ks sr). rewrite Hex.
+          cbn [keys map fst rev]. unfold set_par; cbn [m_par m_var m_der m_rxn m_sur m_ro m_dat].
+          rewrite <- !app_assoc. reflexivity.
+        * constructor; [split; reflexivity|exact Hrel].
+      + unfold fn_to_symbolic_repr in Hv. destruct (translate f a) eqn:Ht; [|discriminate].
+        inversion Hv; subst s; clear Hv.
+        destruct (Hrok (mkSlot (key_of nstr ks k (fname f)) f a)) as [f' [Hres HR]]; [cbn; left; reflexivity|].
+        cbn [sl_key sl_fn] in Hres, HR.
+        destruct (IH _ eq_refl (fun s Hs => Hrok s (or_intror Hs)) (k :: ids) (set_par m0 (m_par m0 ++ [(k, IA f' a)])) Hf)
+          as [vs' [Hex Hrel]].
+        exists ((k, IA f' a) :: vs'). split.
+        * cbn [par_ops map fst snd valref_of sf_name sf_args exec_ops exec_op resolve_val obind].
+          rewrite Hres. cbn [obind].
+          rewrite (insert_id_ok _ _ Hk1 Hk2). cbn [obind].
+          fold (set_par m0 (m_par m0 ++ [(k, IA f' a)])). fold (par_ops ks sr). rewrite Hex.
+          cbn [keys map fst rev]. unfold set_par; cbn [m_par m_var m_der m_rxn m_sur m_ro m_dat].
+          rewrite <- !app_assoc. reflexivity.
+        * constructor; [split; [reflexivity|split; [exact HR|reflexivity]]|exact Hrel].
+  Qed.
+
+  Lemma exec_ders ks : forall l sl,
+    sym_derived E fname translate l = Some sl ->
+    (forall s, In s (der_slots nstr fname ks l) -> ROK D s) ->
+    forall ids m0, fresh (keys l) ids ->
+    exists ds', exec_ops E D (der_ops ks sl) (ids, m0) = Built (rev (keys l) ++ ids, set_der m0 (m_der m0 ++ ds'))
+                /\ Forall2 (der_rel (frel D)) l ds'.
+  Proof.
+    induction l as [|[k [f a]] r IH]; intros sl Hs Hrok ids m0 Hf; simpl in Hs.
+    - inversion Hs; subst. exists []. split; [|constructor].
+      cbn. unfold set_der. rewrite app_nil_r. destruct m0; reflexivity.
+    - unfold fn_to_symbolic_repr in Hs. destruct (translate f a) as [e|] eqn:Ht; [|discriminate].
+      destruct (sym_derived E fname translate r) as [sr|] eqn:Hr; [|discriminate].
+      inversion Hs; subst sl; clear Hs.
+      cbn [keys map fst] in Hf. apply fresh_tail in Hf. destruct Hf as [Hk1 [Hk2 Hf]].
+      destruct (Hrok (mkSlot (key_of nstr ks k (fname f)) f a)) as [f' [Hres HR]]; [cbn; left; reflexivity|].
+      cbn [sl_key sl_fn] in Hres, HR.
+      destruct (IH _ eq_refl (fun s Hs => Hrok s (or_intror Hs)) (k :: ids) (set_der m0 (m_der m0 ++ [(k, mkDer f' a)])) Hf)
+        as [ds' [Hex Hrel]].
+      exists ((k, mkDer f' a) :: ds'). split.
+      + cbn [der_ops map fst snd sf_name sf_args exec_ops exec_op obind].
+        rewrite Hres. cbn [obind].
+        rewrite (insert_id_ok _ _ Hk1 Hk2). cbn [obind].
+        fold (set_der m0 (m_der m0 ++ [(k, mkDer f' a)])). fold (der_ops ks sr). rewrite Hex.
+        cbn [keys map fst rev]. unfold set_der; cbn [m_par m_var m_der m_rxn m_sur m_ro m_dat].
+        rewrite <- !app_assoc. reflexivity.
+      + constructor; [split; [reflexivity|split; [exact HR|reflexivity]]|exact Hrel].
+  Qed.
+
+  Lemma resolve_stoich_ok ks k : forall st sst,
+    sym_stoich E fname translate st = Some sst ->
+    (forall s, In s (sto_slots nstr fname ks k st) -> ROK D s) ->
+    exists st', resolve_stoich E D (sto_refs ks k sst) = Built st' /\ Forall2 (coef_rel (frel D)) st st'.
+  Proof.
+    induction st as [|[c v] r IH]; intros sst Hs Hrok; simpl in Hs.
+    - inversion Hs; subst. exists []. split; [reflexivity|constructor].
+    - destruct (sym_coef E fname translate v) as [sc|] eqn:Hv; [|discriminate].
+      destruct (sym_stoich E fname translate r) as [sr|] eqn:Hr; [|discriminate].
+      inversion Hs; subst sst; clear Hs.
+      destruct v as [q|f a]; simpl in Hv.
+      + inversion Hv; subst sc; clear Hv.
+        destruct (IH _ eq_refl (fun s Hs => Hrok s Hs)) as [st' [Hex Hrel]].
+        exists ((c, CStat q) :: st'). split.
+        * cbn [sto_refs map fst snd coefref_of resolve_stoich resolve_coef obind].
+          fold (sto_refs ks k sr). rewrite Hex. reflexivity.
+        * constructor; [split; reflexivity|exact Hrel].
+      + unfold fn_to_symbolic_repr in Hv. destruct (translate f a) as [e|] eqn:Ht; [|discriminate].
+        inversion Hv; subst sc; clear Hv.
+        destruct (Hrok (mkSlot (key_of nstr ks k (fname f)) f a)) as [f' [Hres HR]]; [cbn; left; reflexivity|].
+        cbn [sl_key sl_fn] in Hres, HR.
+        destruct (IH _ eq_refl (fun s Hs => Hrok s (or_intror Hs))) as [st' [Hex Hrel]].
+        exists ((c, CDyn f' a) :: st'). split.
+        * cbn [sto_refs map fst snd coefref_of sf_name sf_args resolve_stoich resolve_coef obind].
+          rewrite Hres. cbn [obind]. fold (sto_refs ks k sr). rewrite Hex. reflexivity.
+        * constructor; [split; [reflexivity|split; [exact HR|reflexivity]]|exact Hrel].
+  Qed.
+
+  Lemma exec_rxns ksr kss : forall l sl,
+    sym_reactions E fname translate l = Some sl ->
+    (forall s, In s (rxn_slots nstr fname ksr kss l) -> ROK D s) ->
+    forall ids m0, fresh (keys l) ids ->
+    exists rs', exec_ops E D (rxn_ops ksr kss sl) (ids, m0) = Built (rev (keys l) ++ ids, set_rxn m0 (m_rxn m0 ++ rs'))
+                /\ Forall2 (rxn_rel (frel D)) l rs'.
+  Proof.
+    induction l as [|[k [f a st]] r IH]; intros sl Hs Hrok ids m0 Hf; simpl in Hs.
+    - inversion Hs; subst. exists []. split; [|constructor].
+      cbn. unfold set_rxn. rewrite app_nil_r. destruct m0; reflexivity.
+    - unfold fn_to_symbolic_repr in Hs. destruct (translate f a) as [e|] eqn:Ht; [|discriminate].
+      destruct (sym_stoich E fname translate st) as [sst|] eqn:Hst; [|discriminate].
+      destruct (sym_reactions E fname translate r) as [sr|] eqn:Hr; [|discriminate].
+      inversion Hs; subst sl; clear Hs.
+      cbn [keys map fst] in Hf. apply fresh_tail in Hf. destruct Hf as [Hk1 [Hk2 Hf]].
+      destruct (Hrok (mkSlot (key_of nstr ksr k (fname f)) f a)) as [f' [Hres HR]]; [cbn; left; reflexivity|].
+      cbn [sl_key sl_fn] in Hres, HR.
+      destruct (resolve_stoich_ok kss k st sst Hst) as [st' [Hsto Hstrel]].
+      { intros s Hs. apply Hrok. cbn. right. apply in_or_app. left. exact Hs. }
+      destruct (IH _ eq_refl (fun s Hs => Hrok s (or_intror (in_or_app _ _ _ (or_intror Hs)))) (k :: ids)
+                   (set_rxn m0 (m_rxn m0 ++ [(k, mkRxn f' a st')])) Hf)
+        as [rs' [Hex Hrel]].
+      exists ((k, mkRxn f' a st') :: rs'). split.
+      + cbn [rxn_ops map fst snd sf_name sf_args sr_fn sr_st exec_ops exec_op obind].
+        rewrite Hres. cbn [obind]. rewrite Hsto. cbn [obind].
+        rewrite (insert_id_ok _ _ Hk1 Hk2). cbn [obind].
+        fold (set_rxn m0 (m_rxn m0 ++ [(k, mkRxn f' a st')])). fold (rxn_ops ksr kss sr). rewrite Hex.
+        cbn [keys map fst rev]. unfold set_rxn; cbn [m_par m_var m_der m_rxn m_sur m_ro m_dat].
+        rewrite <- !app_assoc. reflexivity.
+      + constructor; [|exact Hrel].
+        split; [reflexivity|split; [exact HR|split; [reflexivity|exact Hstrel]]].
+  Qed.
+  End Exec.
+
+  Lemma NoDup_app_disjoint {A} (a b : list A) x : NoDup (a ++ b) -> In x a -> In x b -> False.
+  Proof.
+    induction a as [|y a IH]; simpl; [intros _ []|].
+    intros Hnd [Hx|Hx] Hb; inversion Hnd as [|z l Hn Hr]; subst.
+    - apply Hn. apply in_or_app. right. exact Hb.
+    - exact (IH Hr Hx Hb).
+  Qed.
+
+  Lemma fresh_seq a b ids : fresh (a ++ b) ids -> fresh a ids /\ fresh b (rev a ++ ids).
+  Proof.
+    intros [Hnd Hf]. split; split.
+    - exact (NoDup_app_remove_r _ _ Hnd).
+    - intros k Hk. apply Hf. apply in_or_app. left. exact Hk.
+    - exact (NoDup_app_remove_l _ _ Hnd).
+    - intros k Hk. destruct (Hf k (in_or_app _ _ _ (or_intror Hk))) as [H1 H2]. split; [|exact H2].
+      intros Hin. apply in_app_or in Hin. destruct Hin as [Hin|Hin]; [|contradiction].
+      apply in_rev in Hin. exact (NoDup_app_disjoint _ _ _ Hnd Hin Hk).
+  Qed.
+
+  Lemma roundtrip_partial F m c :
+    UniqueIds m ->
+    (forall s, In s (slots nstr fname F m) -> NoDup (sl_args s)) ->
+    (forall s1 s2, In s1 (slots nstr fname F m) -> In s2 (slots nstr fname F m) ->
+                   sl_key s1 = sl_key s2 -> forall vs, fsem (sl_fn s1) vs = fsem (sl_fn s2) vs) ->
+    generate E nstr fname translate F m = Some c ->
+    exists m', exec_code E c = Built m' /\ model_rel (frel (c_defs c)) m m'.
+  Proof.
+    intros [Hnd Htime] Hargs Hndf Hgen. unfold generate in Hgen.
+    destruct (to_symbolic_repr E fname translate m) as [sym|] eqn:Hsym; [|discriminate].
+    inversion Hgen; subst c; clear Hgen.
+    rewrite generate_from_symrepr_spec. cbn [c_defs].
+    pose proof (to_symbolic_repr_writes F m sym Hsym) as HF.
+    pose proof (resolve_ok _ _ HF Hargs Hndf) as Hrok.
+    pose proof (compile_ok _ _ HF Hargs) as Hcomp.
+    set (D := fold_left wr (all_writes F sym) []) in *.
+    unfold to_symbolic_repr in Hsym.
+    destruct (sym_values E fname translate (m_var m)) as [vs|] eqn:H1; [|discriminate].
+    destruct (sym_values E fname translate (m_par m)) as [ps|] eqn:H2; [|discriminate].
+    destruct (sym_derived E fname translate (m_der m)) as [ds|] eqn:H3; [|discriminate].
+    destruct (sym_reactions E fname translate (m_rxn m)) as [rs|] eqn:H4; [|discriminate].
+    inversion Hsym; subst sym; clear Hsym. cbn [sy_var sy_par sy_der sy_rxn] in *.
+    assert (Hfr : fresh (all_ids m) []).
+    { split; [exact Hnd|]. intros k Hk. split; [intros []|]. intro; subst. contradiction. }
+    unfold all_ids in Hfr.
+    apply fresh_seq in Hfr. destruct Hfr as [Hf1 Hfr].
+    apply fresh_seq in Hfr. destruct Hfr as [Hf2 Hfr].
+    apply fresh_seq in Hfr. destruct Hfr as [Hf3 Hf4].
+    unfold slots in Hrok.
+    destruct (exec_vars D (gf_var_key F) _ _ H1) with (ids := @nil name) (m0 := empty_model) as [vs' [Hx1 Hr1]];
+      [intros s Hs; apply Hrok; apply in_or_app; left; exact Hs | exact Hf1 |].
+    destruct (exec_pars D (gf_par_key F) _ _ H2) with (ids := rev (keys (m_var m)) ++ [])
+                                                       (m0 := set_var empty_model (m_var empty_model ++ vs'))
+      as [ps' [Hx2 Hr2]];
+      [intros s Hs; apply Hrok; apply in_or_app; right; apply in_or_app; left; exact Hs | exact Hf2 |].
+    match type of Hx2 with _ = Built (?i, ?mm) => set (ids2 := i) in *; set (m2 := mm) in * end.
+    destruct (exec_ders D (gf_der_key F) _ _ H3) with (ids := ids2) (m0 := m2) as [ds' [Hx3 Hr3]];
+      [intros s Hs; apply Hrok; apply in_or_app; right; apply in_or_app; right; apply in_or_app; left; exact Hs
+      | exact Hf3 |].
+    match type of Hx3 with _ = Built (?i, ?mm) => set (ids3 := i) in *; set (m3 := mm) in * end.
+    destruct (exec_rxns D (gf_rxn_key F) (gf_sto_key F) _ _ H4) with (ids := ids3) (m0 := m3) as [rs' [Hx4 Hr4]];
+      [intros s Hs; apply Hrok; apply in_or_app; right; apply in_or_app; right; apply in_or_app; right; exact Hs
+      | exact Hf4 |].
+    eexists. split.
+    - unfold exec_code. cbn [c_defs c_ops]. rewrite Hcomp. cbn [negb].
+      rewrite !exec_ops_app. rewrite Hx1. cbn [obind]. rewrite Hx2. cbn [obind].
+      rewrite Hx3. cbn [obind]. rewrite Hx4. cbn [obind snd]. reflexivity.
+    - subst m3 m2. unfold model_rel, set_rxn, set_der, set_par, set_var, empty_model.
+      cbn [m_par m_var m_der m_rxn m_sur m_ro m_dat app].
+      repeat split; assumption.
+  Qed.
+
+  (** ---- refusal ---------------------------------------------------------------------------- *)
+
+  Definition untranslatable (s : slot) : Prop := translate (sl_fn s) (sl_args s) = None.
+
+  Lemma sym_values_none ks l :
+    sym_values E fname translate l = None <-> Exists untranslatable (val_slots nstr fname ks l).
+  Proof.
+    induction l as [|[k v] r IH]; simpl.
+    - split; [discriminate|intros H; inversion H].
+    - destruct v as [z|f a]; simpl.
+      + destruct (sym_values E fname translate r); split; intros H; try discriminate.
+        * apply IH in H. discriminate.
+        * apply IH. reflexivity.
+        * reflexivity.
+      + unfold fn_to_symbolic_repr. destruct (translate f a) eqn:Ht.
+        * destruct (sym_values E fname translate r); split; intros H; try discriminate.
+          -- inversion H as [? ? Hu|? ? Hu]; subst; [unfold untranslatable in Hu; cbn in Hu; congruence|].
+             apply IH in Hu. discriminate.
+          -- apply Exists_cons_tl. apply IH. reflexivity.
+          -- reflexivity.
+        * split; intros _; [|reflexivity]. apply Exists_cons_hd. exact Ht.
+  Qed.
+
+  Lemma sym_derived_none ks l :
+    sym_derived E fname translate l = None <-> Exists untranslatable (der_slots nstr fname ks l).
+  Proof.
+    induction l as [|[k [f a]] r IH]; simpl.
+    - split; [discriminate|intros H; inversion H].
+    - unfold fn_to_symbolic_repr. destruct (translate f a) eqn:Ht.
+      + destruct (sym_derived E fname translate r); split; intros H; try discriminate.
+        * inversion H as [? ? Hu|? ? Hu]; subst; [unfold untranslatable in Hu; cbn in Hu; congruence|].
+          apply IH in Hu. discriminate.
+        * apply Exists_cons_tl. apply IH. reflexivity.
+        * reflexivity.
+      + split; intros _; [|reflexivity]. apply Exists_cons_hd. exact Ht.
+  Qed.
+
+  Lemma sym_stoich_none ks k l :
+    sym_stoich E fname translate l = None <-> Exists untranslatable (sto_slots nstr fname ks k l).
+  Proof.
+    induction l as [|[c v] r IH]; simpl.
+    - split; [discriminate|intros H; inversion H].
+    - destruct v as [q|f a]; simpl.
+      + destruct (sym_stoich E fname translate r); split; intros H; try discriminate.
+        * apply IH in H. discriminate.
+        * apply IH. reflexivity.
+        * reflexivity.
+      + unfold fn_to_symbolic_repr. destruct (translate f a) eqn:Ht.
+        * destruct (sym_stoich E fname translate r); split; intros H; try discriminate.
+          -- inversion H as [? ? Hu|? ? Hu]; subst; [unfold untranslatable in Hu; cbn in Hu; congruence|].
+             apply IH in Hu. discriminate.
+          -- apply Exists_cons_tl. apply IH. reflexivity.
+          -- reflexivity.
+        * split; intros _; [|reflexivity]. apply Exists_cons_hd. exact Ht.
+  Qed.
+
+  Lemma sym_reactions_none ksr kss l :
+    sym_reactions E fname translate l = None <-> Exists untranslatable (rxn_slots nstr fname ksr kss l).
+  Proof.
+    induction l as [|[k [f a st]] r IH]; simpl.
+    - split; [discriminate|intros H; inversion H].
+    - unfold fn_to_symbolic_repr. destruct (translate f a) eqn:Ht.
+      + destruct (sym_stoich E fname translate st) eqn:Hs.
+        * destruct (sym_reactions E fname translate r); split; intros H; try discriminate.
+          -- inversion H as [? ? Hu|? ? Hu]; subst; [unfold untranslatable in Hu; cbn in Hu; congruence|].
+             apply Exists_app in Hu. destruct Hu as [Hu|Hu].
+             ++ apply (sym_stoich_none kss k) in Hu. congruence.
+             ++ apply IH in Hu. discriminate.
+          -- apply Exists_cons_tl. apply Exists_app. right. apply IH. reflexivity.
+          -- reflexivity.
+        * split; intros _; [|reflexivity]. apply Exists_cons_tl. apply Exists_app. left.
+          apply (sym_stoich_none kss k). exact Hs.
+      + split; intros _; [|reflexivity]. apply Exists_cons_hd. exact Ht.
+  Qed.
+
+  Lemma generate_none_iff F m :
+    generate E nstr fname translate F m = None <->
+    exists s, In s (slots nstr fname F m) /\ translate (sl_fn s) (sl_args s) = None.
+  Proof.
+    rewrite <- Exists_exists. unfold generate, to_symbolic_repr, slots.
+    rewrite !Exists_app.
+    rewrite <- (sym_values_none (gf_var_key F)), <- (sym_values_none (gf_par_key F)),
+            <- (sym_derived_none (gf_der_key F)), <- (sym_reactions_none (gf_rxn_key F) (gf_sto_key F)).
+    destruct (sym_values E fname translate (m_var m)); [|tauto].
+    destruct (sym_values E fname translate (m_par m)); [|tauto].
+    destruct (sym_derived E fname translate (m_der m)); [|tauto].
+    destruct (sym_reactions E fname translate (m_rxn m)); [|tauto].
+    split; [discriminate|]. intros [H|[H|[H|H]]]; discriminate.
+  Qed.
+
+  Lemma untranslatable_raises F m :
+    (exists s, In s (slots nstr fname F m) /\ translate (sl_fn s) (sl_args s) = None) ->
+    roundtrip E nstr fname translate F m = GenRaises.
+  Proof. intros H. apply generate_none_iff in H. unfold roundtrip. rewrite H. reflexivity. Qed.
+
+  Lemma roundtrip_raises_only_if F m :
+    roundtrip E nstr fname translate F m = GenRaises ->
+    exists s, In s (slots nstr fname F m) /\ translate (sl_fn s) (sl_args s) = None.
+  Proof.
+    intros H. apply generate_none_iff. unfold roundtrip in H.
+    destruct (generate E nstr fname translate F m) as [c|]; [|reflexivity].
+    exfalso. unfold exec_code in H. destruct (negb (defs_compile E (c_defs c))); [discriminate|].
+    destruct (exec_ops E (c_defs c) (c_ops c) ([], empty_model)) eqn:Hx; cbn in H; try discriminate.
+    revert Hx. generalize (c_ops c) (@nil name, empty_model). clear H.
+    intros ops. induction ops as [|op r IH]; intros st; simpl; [discriminate|].
+    destruct (exec_op E (c_defs c) op st) eqn:Ho; simpl; try discriminate; [apply IH|].
+    exfalso. destruct st as [ids mm]. destruct op; cbn in Ho.
+    all: repeat match type of Ho with
+                | context [resolve_val E ?d ?v] => destruct v; cbn in Ho
+                | context [resolve E ?d ?k] => unfold resolve in Ho; destruct (sfind k d); cbn in Ho
+                | context [insert_id ?k ?i] => unfold insert_id in Ho; destruct (N.eqb k time_name); [discriminate|]; destruct (memN k i); cbn in Ho
+                | _ => discriminate
+                end.
+  Abort.
 End Proofs.
